@@ -31,6 +31,7 @@ from core.loader import AnalysisError, FuncInfo, Repo, calls_in, norm
 from core.report import Result
 
 from . import scan
+from . import c04_eval
 from .c04_norm import FIRST_PART, alternatives, canon, dotted, leaves, loc, rename_atoms, restrict, seq, show_dotted, show_loc, strip_abs, unbox
 from .c04_symx import FALSE, TRUE, Event, Formula, SymX, Term, Trace, atom, atoms_of, evaluate, f_and, f_not, f_or, implies, is_const, rewrite, show, show_formula, simplify, substitute, subterms
 from .common import stmt_of, types_of, where
@@ -60,6 +61,12 @@ def run(repo: Repo) -> Result:
     rule_r3(repo, res)
     rule_r4(repo, res)
     rule_r5(repo, res)
+    if res.undecided:
+        # a rule that found too few instances next to constructs that could not be classified is a consequence of those: the
+        # verdict is 'undecided' with the reasons given there, not 'vacuous'
+        for rule, (expected, found) in list(res.floors.items()):
+            if found < expected:
+                del res.floors[rule]
     return res
 
 
@@ -108,6 +115,23 @@ def _default(fi: FuncInfo, name: str) -> str | None:
 
 def _param_leaves(t: Term, fi: FuncInfo) -> set[str]:
     return {x[1] for x in leaves(t, ("param",)) if x[1] in fi.param_names}
+
+
+def _plain_value(t: Term) -> bool:
+    """A value written with parameters, constants, `not` / `and` / `or` / comparisons / bool() only."""
+    if t[0] in ("param", "const"):
+        return True
+    if t[0] == "unop":
+        return _plain_value(t[2])
+    if t[0] == "boolop":
+        return all(_plain_value(x) for x in t[2])
+    if t[0] == "cmp":
+        return _plain_value(t[2]) and _plain_value(t[3])
+    if t[0] == "call" and t[1] == ("builtin", "bool") and len(t[2]) == 1:
+        return _plain_value(t[2][0])
+    if t[0] == "phi":
+        return all(_plain_value(v) for _g, v in t[1])
+    return False
 
 
 def _plain_loc(l: Term) -> bool:
@@ -235,18 +259,25 @@ def rule_r1(repo: Repo, res: Result) -> None:
         root_arg = b.get(names[1]) if len(names) > 1 else None
         got = loc(root_arg) if root_arg is not None else None
         ok = got == ("param", "root_path")
-        if not ok and _has_lost_parts(root_arg):
+        if not ok and (_has_lost_parts(root_arg) or got is None or not _plain_loc(got)):
             res.undecide("C04.R1", f"{tag}::source root of the scan <- root_path", f"cannot follow how the scanner's source root `{show(root_arg, 100)}` is computed", where(ctor.fi, ctor.node))
         else:
             res.add("C04.R1", f"{tag}::source root of the scan <- root_path", ok, "module names are computed relative to root_path" if ok else f"the scanner's source root is `{show_loc(got) if got is not None else '?'}`, not root_path: module names no longer start at the root directory", where(ctor.fi, ctor.node), kind="flow")
         filt = b.get(names[0]) if names else None
         pl = _param_leaves(filt, ge) if filt is not None else set()
-        _options_obligation(res, f"{tag}::file filter <- exclusions / regex_exclusions", pl, {"exclusions", "regex_exclusions"}, "the scan filter", ctor, filt)
+        precise = False
+        want_scan = {"exclusions", "regex_exclusions"}
+        if filt is not None and not want_scan >= pl >= set() and want_scan <= pl:
+            # more options than the two reach the filter object: which of its configuration fields does the predicate match against?
+            used = _options_matched_by_filter(repo, T, filt, ge)
+            if used is not None:
+                pl, precise = used, True
+        _options_obligation(res, f"{tag}::file filter <- exclusions / regex_exclusions", pl, want_scan, "the scan filter", ctor, filt, precise)
         start = [e for e in tr2.events if e.kind == "call" and e.name == "parse" and e.recv == ctor.result]
         if len(start) == 1:
             got = loc(start[0].arg(0)) if start[0].arg(0) is not None else None
             ok = got == ("param", "module_path")
-            if not ok and _has_lost_parts(start[0].arg(0)):
+            if not ok and (_has_lost_parts(start[0].arg(0)) or got is None or not _plain_loc(got)):
                 res.undecide("C04.R1", f"{tag}::scan start <- module_path", f"cannot follow how the start of the scan `{show(start[0].arg(0), 100)}` is computed", where(start[0].fi, start[0].node))
             else:
                 res.add("C04.R1", f"{tag}::scan start <- module_path", ok, "the scan starts at module_path" if ok else f"the scan starts at `{show_loc(got) if got is not None else '?'}`, not at module_path", where(start[0].fi, start[0].node), kind="flow")
@@ -256,7 +287,10 @@ def rule_r1(repo: Repo, res: Result) -> None:
     if ext is not None:
         a0 = ext.arg(0, "exclude_external_libraries")
         ok = a0 == ("param", "exclude_external_libraries")
-        res.add("C04.R1", f"{tag}::external filter flag <- exclude_external_libraries", ok, "the flag is forwarded" if ok else f"the external-import filter receives `{show(a0, 60) if a0 is not None else '?'}` as its flag", where(ext.fi, ext.node), kind="flow")
+        if not ok and (a0 is None or _has_lost_parts(a0) or not _plain_value(a0)):
+            res.undecide("C04.R1", f"{tag}::external filter flag <- exclude_external_libraries", f"cannot follow how the flag `{show(a0, 80) if a0 is not None else '?'}` of the external-import filter is computed", where(ext.fi, ext.node))
+        else:
+            res.add("C04.R1", f"{tag}::external filter flag <- exclude_external_libraries", ok, "the flag is forwarded" if ok else f"the external-import filter receives `{show(a0, 60) if a0 is not None else '?'}` as its flag", where(ext.fi, ext.node), kind="flow")
         a2 = ext.arg(2, "external_exclusions")
         pl = _param_leaves(a2, ge) if a2 is not None else set()
         _options_obligation(res, f"{tag}::external filter patterns <- external_exclusions / regex_external_exclusions", pl, {"external_exclusions", "regex_external_exclusions"}, "the patterns of the external-import filter", ext, a2)
@@ -287,12 +321,84 @@ def _has_lost_parts(t: Term | None) -> bool:
             return True
         if x[0] == "attr" and x[1][0] in ("new", "call", "mcall", "elem") and x[2].startswith("_"):
             return True  # a private field of an object built elsewhere
+        if x[0] == "attr" and x[1][0] == "mcall" and (x[1][1][0] == "new" or x[1][2].startswith("_")):
+            return True  # a field of what a method of a helper object returned (`ctx._replace(...).root_path`)
+        if x[0] == "attr" and x[1][0] == "new" and x[2] not in ("name", "parent", "parts", "stem", "suffix"):
+            return True  # a field of a helper object that the executor could not read
         if x[0] in ("call", "mcall") and (x[1][0] == "fn" if x[0] == "call" else False):
             return True  # a repository function that was not entered
     return False
 
 
-def _options_obligation(res: Result, key: str, got: set[str], want: set[str], what: str, e: Event, value: Term | None = None) -> None:
+def _options_matched_by_filter(repo: Repo, T, filt: Term, ge: FuncInfo) -> "set[str] | None":
+    """Options of the entry point whose patterns the exclusion predicate of the filter object `filt` matches against: the predicate is
+    executed symbolically on a filter built from a symbolic configuration; the configuration fields that reach `re.match` are then
+    looked up in the configuration object the entry point builds. None if any step cannot be followed."""
+    if filt[0] != "new" or len(filt[2]) + len(filt[3]) != 1:
+        return None
+    cfg = filt[2][0] if filt[2] else filt[3][0][1]
+    fcls = repo.classes.get(filt[1])
+    ccls = repo.classes.get(cfg[1]) if cfg[0] == "new" else None
+    if fcls is None or ccls is None or repo.lookup_method(ccls, "__init__") is not None:
+        return None
+    init = repo.lookup_method(fcls, "__init__")
+    pred = repo.lookup_method(fcls, scan.EXCLUSION_PREDICATE)
+    if init is None or pred is None or len(init.param_names) != 2:
+        return None
+    self_t, cfg_t = ("param", "<filter>"), ("param", "<config>")
+    try:
+        sx0 = SymX(repo, T)
+        tr0 = sx0.run(init, args={init.param_names[1]: cfg_t}, self_term=self_t)
+        if tr0.final is None or not tr0.final.alive or tr0.opaque_calls():
+            return None
+        heap = dict(tr0.final.heap)
+        probe = SymX(repo, T, first_id=20_000)
+        overloads = probe._dispatch_overloads(pred)
+        bodies = [f for _t, f in overloads] if overloads else [pred]
+        fields: set[str] = set()
+        matches = 0
+        for i, body in enumerate(bodies):
+            sx1 = SymX(repo, T, first_id=30_000 + 10_000 * i, keep=lambda f: f.fq == pred.fq)
+            tr1 = sx1.run(body, self_term=self_t, heap=heap)
+            for e in tr1.events:
+                if e.kind != "call":
+                    continue
+                if e.func[0] == "lib" and e.func[1] in ("re.match", "re.search", "re.fullmatch") and e.args:
+                    pat = e.args[0]
+                elif e.func[0] == "method" and e.name in ("match", "search", "fullmatch") and e.recv is not None:
+                    pat = e.recv
+                else:
+                    continue
+                matches += 1
+                mine = {x[2] for x in subterms(pat) if x[0] == "attr" and x[1] == cfg_t}
+                if not mine:
+                    return None
+                fields |= mine
+            if tr1.opaque_calls(lambda e: e.name == pred.name):
+                return None
+        if not matches:
+            return None
+    except AnalysisError:
+        return None
+    declared = [a for c in reversed(repo.mro(ccls)) for a in c.ann_attrs]
+    if not fields <= set(declared):
+        return None
+    given: dict[str, Term] = {}
+    for i, v in enumerate(cfg[2]):
+        if i < len(declared):
+            given[declared[i]] = v
+    for k, v in cfg[3]:
+        given[k] = v
+    out: set[str] = set()
+    for f in fields:
+        if f in given:
+            if _has_lost_parts(given[f]):
+                return None
+            out |= _param_leaves(given[f], ge)
+    return out
+
+
+def _options_obligation(res: Result, key: str, got: set[str], want: set[str], what: str, e: Event, value: Term | None = None, precise: bool = False) -> None:
     """The value is computed from exactly the options `want`. An option that is missing is a violation; additional options
     (e.g. both pattern kinds converted by one shared comprehension) cannot be judged on the level of 'depends on'."""
     if got == want:
@@ -301,6 +407,8 @@ def _options_obligation(res: Result, key: str, got: set[str], want: set[str], wh
         res.undecide("C04.R1", key, f"cannot follow how {what} is computed (`{show(value, 100)}`)", where(e.fi, e.node))
     elif not want <= got:
         res.add("C04.R1", key, False, f"{what} is built from {sorted(got) or 'no option'} instead of {' / '.join(sorted(want))}", where(e.fi, e.node), kind="flow")
+    elif precise:
+        res.add("C04.R1", key, False, f"{what} also matches the patterns given as {' / '.join(sorted(got - want))}: options meant for another filter decide which files and directories are scanned", where(e.fi, e.node), kind="flow")
     else:
         res.undecide("C04.R1", key, f"{what} depends on {sorted(got)}: cannot tell whether the other options only take part in a shared computation", where(e.fi, e.node))
 
@@ -390,6 +498,20 @@ def _root_tests(sx: SymX, fs, rel: Term, root: Term | None = None) -> dict[str, 
     return out
 
 
+def _name_counterexample(sx: SymX, info, reg):
+    """A concrete (source root, path) on which the registered name is not `<root name>.<relative path without suffix, dotted>`."""
+    if reg.path is None:
+        return None
+    init = info.parse.cls and next((m for c in [info.parse.cls] for m in [c.methods.get("__init__")] if m is not None), None)
+    if init is None or len(init.param_names) < 3 or not info.ctor_heap:
+        return None
+    root_param = f"{info.parse.cls.name}.{init.param_names[2]}"
+    try:
+        return c04_eval.name_counterexample(reg.element, reg.path, root_param, sx)
+    except (c04_eval.Unknown, RecursionError):
+        return None
+
+
 def rule_r3(repo: Repo, res: Result) -> None:
     info = scan.analyse(repo)
     sx = info.sx
@@ -405,6 +527,10 @@ def rule_r3(repo: Repo, res: Result) -> None:
         rels = {l for x in subterms(el) for l in [loc(x)] if l[0] == "REL" and strip_abs(l[1]) == strip_abs(loc(reg.path))}
         if len(rels) != 1:
             done += 1
+            cex = _name_counterexample(sx, info, reg)
+            if cex is not None:
+                res.add("C04.R3", key + " [naming shape]", False, f"for the source root {cex[0]!r} the path {cex[1]!r} is registered as {cex[2]!r} instead of {cex[3]!r}", wh, kind="structural")
+                continue
             res.undecide("C04.R3", key + " [name relative to the source root]", f"cannot see how the registered name `{show(el, 120)}` is computed from the path relative to the source root", wh)
             continue
         rel = rels.pop()
@@ -447,7 +573,11 @@ def rule_r3(repo: Repo, res: Result) -> None:
         elif bad:
             g, v = bad[0]
             d = dotted(v)
-            if d is None:
+            cex = _name_counterexample(sx, info, reg) if d is None or not _path_vocabulary(d, (rel[1], root, strip_abs(rel[1])), (root,)) else None
+            if cex is not None:
+                readable = False
+                res.add("C04.R3", key + " [naming shape]", False, f"for the source root {cex[0]!r} the path {cex[1]!r} is registered as {cex[2]!r} instead of {cex[3]!r}", wh, kind="structural")
+            elif d is None:
                 readable = False
                 res.undecide("C04.R3", key + " [naming shape]", f"cannot read `{show(v, 160)}` as a dotted name", wh)
             elif not _path_vocabulary(d, (rel[1], root, strip_abs(rel[1])), (root,)):
@@ -456,7 +586,7 @@ def rule_r3(repo: Repo, res: Result) -> None:
             else:
                 if any(k_ == "item" and v_[0] == "attr" and v_[2] == FIRST_PART for k_, v_ in d):
                     why = "cuts the file name at its first '.', which is not where the suffix starts (`a.b.py`)"
-                elif not d or d[0] != want[0]:
+                elif not d or (d[0] != want[0] and not (d[0][0] == "parts" and want[0][0] == "parts" and d[0][1][0] == "REL" and want[0][1][0] == "REL" and d[0][1][2] == want[0][1][2])):
                     why = "does not start with the root directory's name"
                 else:
                     why = "is not the path relative to the root with the suffix removed, one component per path part"
@@ -699,6 +829,7 @@ def _chain_pos_raw(t: Term):
         cnt = _counter(i)
         if cnt is not None:
             k, off, start, stop = cnt
+            base = _mapped_source(base)
             c = _len_offset(stop, base)
             if c is None:
                 return None
@@ -717,6 +848,9 @@ def _covers_all_pairs(parent, child) -> bool:
     if parent[0] != child[0] or parent[1] != child[1] or child[2] != parent[2] + 1:
         return False
     return parent[2] == 0 and parent[3] == -1 and child[3] == -1
+
+
+MUTATING_LIST_METHODS = {"append", "extend", "insert", "pop", "remove", "clear", "sort", "reverse", "appendleft"}
 
 
 class _Names:
@@ -868,6 +1002,26 @@ def _ancestors_function(repo: Repo, T) -> FuncInfo | None:
     return repo.find_func(TYPES, "get_parent_modules")
 
 
+def _accessor_hands_out_cached_list(repo: Repo, accessor: str, gpm: FuncInfo) -> bool:
+    """Every implementation of the Import accessor returns, uncopied, a field that was assigned the result of the ancestors function."""
+    imp = repo.modules.get(TYPES)
+    base = imp.classes.get("Import") if imp is not None else None
+    if base is None:
+        return False
+    impls = [f for f in repo.implementations(base, accessor) if not f.is_abstract]
+    if not impls:
+        return False
+    for f in impls:
+        rets = [n for n in ast.walk(f.node) if isinstance(n, ast.Return)]
+        if len(rets) != 1 or not (isinstance(rets[0].value, ast.Attribute) and isinstance(rets[0].value.value, ast.Name) and rets[0].value.value.id == f.param_names[0]):
+            return False
+        field_ = rets[0].value.attr
+        assigned = [n for c in repo.mro(f.cls) for m in c.methods.values() for n in ast.walk(m.node) if isinstance(n, ast.Assign) and any(isinstance(t, ast.Attribute) and t.attr == field_ for t in n.targets)]
+        if not assigned or not all(isinstance(n.value, ast.Call) and isinstance(n.value.func, (ast.Name, ast.Attribute)) and (n.value.func.id if isinstance(n.value.func, ast.Name) else n.value.func.attr) == gpm.name for n in assigned):
+            return False
+    return True
+
+
 def rule_r4(repo: Repo, res: Result) -> None:
     T = types_of(repo)
     g = repo.cls(NXGRAPH, "NetworkxGraph")
@@ -906,6 +1060,31 @@ def rule_r4(repo: Repo, res: Result) -> None:
     api = {"importer", "importee", "importer_parent_modules", "importee_parent_modules"}
     opaque = tr.opaque_calls(lambda e: e.func == ("fn", gpm.fq) or e.name in api)
     lost = f"the construction calls `{norm(opaque[0].node, 70)}`, which the analysis cannot follow" if opaque else ""
+
+    # the hierarchy is asked for through `parent_child_relationship`: two names related by *characters* are not parent and child
+    pcr = g.methods.get("parent_child_relationship")
+    if pcr is not None and len(pcr.param_names) == 3:
+        try:
+            sxq = SymX(repo, T, first_id=50_000)
+            trq = sxq.run(pcr)
+            a_, b_ = ("param", pcr.param_names[1]), ("param", pcr.param_names[2])
+            seen_q = [x for _pc, t in trq.returns for x in subterms(t)] + [x for k_ in sxq.atoms for x in subterms(sxq.atoms[k_])]
+            for x in seen_q:
+                if x[0] == "mcall" and x[2] == "startswith" and len(x[3]) == 1 and {x[1], x[3][0]} == {a_, b_}:
+                    res.add("C04.R4", f"{pcr.relpath}::{pcr.qualname}::hierarchy read from the edges", False, f"`{show(x, 80)}` decides whether one module is the parent of another: by characters `pkg.ab` lies below `pkg.a`; the relation is the `inherits` flag of the edge, which the construction sets along the directory tree", where(pcr, pcr.node), kind="structural")
+                    break
+        except AnalysisError:
+            pass
+
+    # a memoised ancestors function hands out the same list object again and again: the graph builder must not change it in place
+    if any("lru_cache" in d or d.rsplit(".", 1)[-1] == "cache" for d in gpm.decorators):
+        for e in tr.events:
+            if e.kind != "mut" or e.recv is None or e.name not in MUTATING_LIST_METHODS:
+                continue
+            r = e.recv
+            shared = r[0] == "call" and r[1] == ("fn", gpm.fq) or r[0] == "mcall" and r[2] in ("importer_parent_modules", "importee_parent_modules") and _accessor_hands_out_cached_list(repo, r[2], gpm)
+            if shared:
+                res.add("C04.R4", repo.key(e.fi, stmt_of(e.node)) + " [shared ancestor list modified]", False, f"`{norm(e.node, 60)}` changes the list returned by the memoised `{gpm.name}` in place: every later request for the ancestors of that name gets the modified list, so graphs built afterwards in the same process link the wrong modules", where(e.fi, e.node), kind="flow")
 
     def unconditional(e: Event) -> tuple[bool, str]:
         """The node / edge is created whenever the graph does not contain it yet (edges: and contains both ends)."""
@@ -1350,6 +1529,24 @@ def _same_tests(sx: SymX, keys, M: Term, R: Term) -> dict[str, bool]:
     return tests
 
 
+def _counterexample(sx: SymX, term: Term, expected, normalise=lambda v: v):
+    """(root, module, got, wanted) of a concrete pair of paths on which the term has the wrong value, else None."""
+    try:
+        return c04_eval.counterexample(term, sx, expected, normalise)
+    except c04_eval.Unknown:
+        return None
+    except RecursionError:
+        return None
+
+
+def _internal_prefix_counterexample(sx: SymX, res: Result, key: str, what: str, e: Event, arg: Term) -> bool:
+    cex = _counterexample(sx, arg, c04_eval.expected_internal_prefix, lambda v: v.rstrip("."))
+    if cex is None:
+        return False
+    res.add("C04.R5", key, False, f"for root_path={cex[0]!r} and module_path={cex[1]!r} the {what} treats {cex[2]!r} as the internal prefix instead of {cex[3]!r}: modules outside the scanned sub-tree count as internal (or the sub-tree itself as external)", where(e.fi, e.node), kind="structural")
+    return True
+
+
 def _check_internal_prefix(sx: SymX, res: Result, tag: str, what: str, e: Event, arg: Term | None, M: Term, R: Term) -> None:
     """The prefix that separates internal from external modules is the dotted name of module_path, starting with the root
     directory's name: `root.name + "." + <module_path relative to root_path>` (a trailing '.' does not matter)."""
@@ -1363,12 +1560,16 @@ def _check_internal_prefix(sx: SymX, res: Result, tag: str, what: str, e: Event,
         known = f_and([(atom(k) if pol == same else f_not(atom(k))) for k, pol in tests.items()])
         v = restrict(arg, known)
         if v[0] == "phi":
+            if _internal_prefix_counterexample(sx, res, key, what, e, arg):
+                return
             res.undecide("C04.R5", key, f"cannot tell which of the alternatives of `{show(v, 120)}` is used when root_path {'equals' if same else 'differs from'} module_path", where(e.fi, e.node))
             return
         d = dotted(v, trailing_dot=True)
         want = [("item", ("attr", R, "name"))] if same else canon([("item", ("attr", R, "name")), ("parts", ("REL", M, R))])
         accepted = [want, canon([("item", ("attr", R, "name")), ("parts", ("REL", M, R))])] if same else [want]
         if d is None or (d not in accepted and not _path_vocabulary(d, (M, R), (R,))):
+            if _internal_prefix_counterexample(sx, res, key, what, e, arg):
+                return
             res.undecide("C04.R5", key, f"cannot read the prefix `{show(v, 120)}` as a dotted module name", where(e.fi, e.node))
             return
         if d not in accepted:
@@ -1464,12 +1665,17 @@ def rule_r5(repo: Repo, res: Result) -> None:
             key = f"{tag}::absolute-import prefix"
             if not main:
                 res.add("C04.R5", key + " [source]", False, "the absolute-import prefix is always empty: imports written relative to module_path's parent never resolve", where(e.fi, e.node), kind="structural")
-            elif any(d is None for d in ds):
-                v = main[ds.index(None)][1]
-                res.undecide("C04.R5", key + " [source]", f"cannot read the prefix `{show(v, 160)}` as a dotted path", where(e.fi, e.node))
-            elif any(d != want and not _path_vocabulary(d, (M, R)) for d in ds):
-                d = next(d for d in ds if d != want and not _path_vocabulary(d, (M, R)))
-                res.undecide("C04.R5", key + " [source]", f"cannot compare the prefix `{show_dotted(d)}` with module_path.parent relative to root_path.parent", where(e.fi, e.node))
+            elif any(d is None for d in ds) or any(d != want and not _path_vocabulary(d, (M, R)) for d in ds):
+                # no normal form: a concrete pair of paths on which the value is wrong still decides it
+                cex = _counterexample(sx, prefix, c04_eval.expected_absolute_prefix)
+                if cex is not None:
+                    res.add("C04.R5", key + " [source]", False, f"for root_path={cex[0]!r} and module_path={cex[1]!r} the absolute-import prefix is {cex[2]!r} instead of {cex[3]!r} (module_path.parent relative to root_path.parent): absolute imports written relative to module_path's parent do not resolve", where(e.fi, e.node), kind="structural")
+                elif any(d is None for d in ds):
+                    v = main[ds.index(None)][1]
+                    res.undecide("C04.R5", key + " [source]", f"cannot read the prefix `{show(v, 160)}` as a dotted path", where(e.fi, e.node))
+                else:
+                    d = next(d for d in ds if d != want and not _path_vocabulary(d, (M, R)))
+                    res.undecide("C04.R5", key + " [source]", f"cannot compare the prefix `{show_dotted(d)}` with module_path.parent relative to root_path.parent", where(e.fi, e.node))
             elif any(d != want for d in ds):
                 d = next(d for d in ds if d != want)
                 res.add("C04.R5", key + " [source]", False, f"the absolute-import prefix is `{show_dotted(d)}`: not module_path.parent relative to root_path.parent in dotted notation", where(e.fi, e.node), kind="structural")
@@ -1502,7 +1708,24 @@ def rule_r5(repo: Repo, res: Result) -> None:
             name = restrict(e.args[1], e.guard)
             carried = [x for x in subterms(name) if x[0] == "loopvar"]
             if carried:
-                res.add("C04.R5", key + " [absolute importee adjusted]", False, f"the importee of one imported name depends on the previous one: `{carried[0][1]}` is carried over from an earlier iteration of the loop over the imported names", where(e.fi, e.node), kind="flow")
+                # only a value carried around the loop over the imported names (`for alias in node.names`) mixes up importees
+                loop = next((l for l in e.loops if l.id == carried[0][2]), None)
+                over_names = loop is not None and loop.iter is not None and any(x[0] == "attr" and x[2] == "names" for x in subterms(loop.iter))
+                if over_names:
+                    res.add("C04.R5", key + " [absolute importee adjusted]", False, f"the importee of one imported name depends on the previous one: `{carried[0][1]}` is carried over from an earlier iteration of the loop over the imported names", where(e.fi, e.node), kind="flow")
+                else:
+                    res.undecide("C04.R5", key + " [absolute importee adjusted]", f"cannot tell what `{carried[0][1]}`, which changes from one iteration of a loop to the next, contributes to the importee name", where(e.fi, e.node))
+                continue
+            memo = [x for x in subterms(name) if x[0] == "idx" and x[1][0] == "box" and x[1][1] in sx2.persistent]
+            if memo:
+                # the name is looked up in a container that outlives the call (a class-level memo): what was stored there?
+                box_id, key_t = memo[0][1][1], memo[0][2]
+                stores = [ev for ev in tr2.events if ev.kind == "setitem" and ev.recv is not None and ev.recv[0] == "box" and ev.recv[1] == box_id and len(ev.args) == 2]
+                stale = [ev for ev in stores if (I in subterms(ev.args[1]) or _all_guard_atoms(sx2, ev.args[1], I)) and I not in subterms(ev.args[0])]
+                if stale:
+                    res.add("C04.R5", key + " [absolute importee adjusted]", False, f"the adjusted name is remembered in a class-level table under `{show(key_t, 60)}`, which does not contain the set of internal modules it was computed for: a name worked out during one scan is reused by the next one (other module_path, other internal modules)", where(e.fi, e.node), kind="flow")
+                else:
+                    res.undecide("C04.R5", key + " [absolute importee adjusted]", f"the importee is read from the class-level table `{show(memo[0][1], 40)}`: cannot tell what it holds", where(e.fi, e.node))
                 continue
             verdict, detail = _check_adjusted_by_cases(sx2, name, P, I, e.guard)
             if verdict is None:
